@@ -211,6 +211,27 @@ Definition ka_react (me : nat) (o : ka_out) (late_cancel disconnecting : bool) (
 Definition rc_keepalive (I T : N) (s : list ping_outcome) : option ka_out :=
   if 0 <? I then Some (keepalive I T s) else None.
 
+(* The settings the reconnecting client hands to KeepAlive (reconnclient.go:70-75, 124-128):
+   PingInterval defaults to the CONNECT keep-alive value, Timeout to PingInterval; the call is
+   KeepAlive(ctxKeepAlive, baseCli, PingInterval, Timeout) — interval first, timeout second. *)
+Record rc_options := mk_ro { ro_ping_interval : N; ro_timeout : N }.
+
+Definition rc_effective (o : rc_options) (connect_keepalive : N) : rc_options :=
+  let i := if ro_ping_interval o =? 0 then connect_keepalive else ro_ping_interval o in
+  mk_ro i (if ro_timeout o =? 0 then i else ro_timeout o).
+
+(* a peer described by how long it takes to answer each PINGREQ (None: never): whether that is
+   an answer or silence is decided by the TIMEOUT in force *)
+Definition peer_outcome (T : N) (d : option N) : ping_outcome :=
+  match d with
+  | Some x => if x <? T then Answered x else Never
+  | None => Never
+  end.
+
+Definition rc_keepalive_peer (o : rc_options) (delays : list (option N)) : option ka_out :=
+  rc_keepalive (ro_ping_interval o) (ro_timeout o)                     (* :126-127, in this order *)
+               (map (peer_outcome (ro_timeout o)) delays).
+
 (* Which context the keep-alive context of a connection is derived from (reconnclient.go:81-120).
    The loop starts with the context the caller passed to Connect; the first successful CONNECT
    replaces it by context.Background() (doneOnce, :108-112) BEFORE ctxKeepAlive is created from it
